@@ -16,6 +16,10 @@ func main() {
 		fmt.Println("usage: vharness <ID> <quick|thorough> [--replay file]")
 		os.Exit(2)
 	}
+	if spec := os.Getenv("VERIF_C13_WORKER"); spec != "" {
+		props.C13Worker(spec)
+		return
+	}
 	id, tier := os.Args[1], os.Args[2]
 	replay := ""
 	for i := 3; i < len(os.Args); i++ {
